@@ -1,6 +1,7 @@
 package main
 
 import (
+	"math/big"
 	"encoding/base64"
 	"encoding/json"
 	"flag"
@@ -245,7 +246,7 @@ func crash11Workload(args []string) int {
 	if self == "" {
 		self, _ = os.Executable()
 	}
-	heights := []uint64{12, 2, 23, 5, 11, 1}
+	heights := []uint64{12, 2, 23, 5, 11, 1, 0} // 0 = the commit of the genesis block itself
 	for id := a.From; id < a.To; id++ {
 		rng := vlog.CaseRand(a.Seed, "crash11", id)
 		h := heights[id%len(heights)]
@@ -280,8 +281,26 @@ func crash11Workload(args []string) int {
 				return
 			}
 			g := newMixGen(gen, rng)
+			// the cases that would crash at height 23 crash at the last fixture block instead: block h+1 is then
+			// the first generated one, and it creates accounts that get code and storage in the same block (an
+			// EVM contract whose constructor stores a word, a WASM contract) - what a state roll-back of a block
+			// has to undo completely
+			creates := false
+			if h == 23 {
+				h, creates = gen.R.Height(), true
+			}
 			for gen.R.Height() < h+4 || gen.R.Height() < 27 {
 				txs := g.genBlock(gen.R.Height() + 1)
+				if creates && gen.R.Height() == h {
+					ek := harness.EthAddr(harness.EthKey("eth-creator"))
+					initCode := []byte{0x60, 0x2a, 0x60, 0x00, 0x55, 0x60, 0x0a, 0x60, 0x11, 0x60, 0x00, 0x39, 0x60, 0x0a, 0x60, 0x00, 0xf3, 0x60, 0x2a, 0x60, 0x00, 0x52, 0x60, 0x20, 0x60, 0x00, 0xf3}
+					txs = append(txs, gen.Transfer(harness.User(0), ek, "1000000000000"),
+						gen.Eth("eth-creator", 0, 300000, big.NewInt(1000), big.NewInt(0), nil, initCode))
+					if code, err := harness.RuleWasm("firstbyte"); err == nil {
+						txs = append(txs, harness.XVMDeployTx(harness.User(1), gen.Nonce(harness.User(1).Addr), gen.Stamp(), code))
+					}
+					w.Count("crash_blocks_creating_accounts_with_code_and_storage", 1)
+				}
 				res, err := gen.Exec(txs...)
 				if err != nil {
 					w.Inconclusive(err.Error())
@@ -302,16 +321,29 @@ func crash11Workload(args []string) int {
 				}
 				return nil
 			}
+			// executing "block h+1": for h == 0 that is the genesis block, written when an empty directory is opened
+			execNext := func(dir string, env ...string) error {
+				if h == 0 {
+					return run(dir, 2, 0, env...)
+				}
+				return run(dir, h+1, h+1, env...)
+			}
 			// ---- reference with the same close/reopen at h; PRE and POST images
 			refDir := filepath.Join(base, "ref")
-			if err := run(refDir, 2, h); err != nil { // h == 1: runs genesis only
+			if h == 0 {
+				// PRE of the genesis commit: the stores exist and are empty (both writers stopped at their first step)
+				if err := run(refDir, 2, 0, "VERIF_HOOKS=ledger.persist.state.begin=kill:1,ledger.persist.chain.begin=sleep:400000:1"); err == nil {
+					w.Inconclusive("genesis: the kill hook was not reached")
+					return
+				}
+			} else if err := run(refDir, 2, h); err != nil { // h == 1: runs genesis only
 				w.Inconclusive("reference: " + err.Error())
 				return
 			}
 			src := map[string]string{"PRE": filepath.Join(base, "PRE"), "POST": filepath.Join(base, "POST"), "MID": filepath.Join(base, "MID")}
 			copyTree(refDir, src["PRE"])
 			ref := &c11Ref{H: h, Hashes: map[uint64]string{}}
-			{
+			if h > 0 {
 				r, err := harness.Open(refDir, opts)
 				if err != nil {
 					w.Inconclusive(err.Error())
@@ -320,7 +352,7 @@ func crash11Workload(args []string) int {
 				ref.DumpH = dumpNoJournal(r)
 				r.Close()
 			}
-			if err := run(refDir, h+1, h+1); err != nil {
+			if err := execNext(refDir); err != nil {
 				w.Inconclusive("reference: " + err.Error())
 				return
 			}
@@ -350,7 +382,7 @@ func crash11Workload(args []string) int {
 			// MID: state batch committed, journals not yet pruned (only differs from POST when h+1 > 10)
 			states := []string{"PRE", "POST"}
 			copyTree(src["PRE"], src["MID"])
-			if err := run(src["MID"], h+1, h+1, "VERIF_HOOKS=state.commit.after_batch=kill:1,ledger.persist.chain.begin=sleep:400000:1"); err != nil && h+1 > 10 {
+			if err := execNext(src["MID"], "VERIF_HOOKS=state.commit.after_batch=kill:1,ledger.persist.chain.begin=sleep:400000:1"); err != nil && h+1 > 10 {
 				states = append(states, "MID")
 			}
 			probe := func(img string) *c11Result {
@@ -435,7 +467,7 @@ func crash11Workload(args []string) int {
 				img := filepath.Join(base, "kimg")
 				os.RemoveAll(img)
 				copyTree(src["PRE"], img)
-				err := run(img, h+1, h+1, "VERIF_HOOKS="+spec)
+				err := execNext(img, "VERIF_HOOKS="+spec)
 				if err == nil {
 					w.Count("kill_hook_not_reached", 1)
 					w.SetAdd("kill_hooks_not_reached", strings.Split(spec, "=")[0])
